@@ -34,6 +34,7 @@ type TRule struct {
 	NoBody    bool   `json:"nobody,omitempty"`
 	Reroot    string `json:"reroot,omitempty"`    // BEGINFILE: `$ = <selector>` first
 	SetFlag   bool   `json:"setflag,omitempty"`   // BEGINFILE: isarr = $ is array
+	SetFile   bool   `json:"setfile,omitempty"`   // ENDFILE: the rule overwrites $file after its print (the next value must see the real name again)
 	SetDollar bool   `json:"setdollar,omitempty"` // BEGIN/END: the rule assigns $ after its print (the next rule must still see null)
 	Sig       *Sig   `json:"sig,omitempty"`
 }
@@ -163,6 +164,9 @@ func (p *TProg) Render() string {
 		}
 		if r.Sig != nil && r.Sig.Pos == "after" {
 			stmts = append(stmts, r.Sig.render(r.Tag))
+		}
+		if r.SetFile && r.Kind == "ENDFILE" {
+			stmts = append(stmts, "$file = \"clobbered\"")
 		}
 		if r.SetDollar && (r.Kind == "BEGIN" || r.Kind == "END") {
 			stmts = append(stmts, fmt.Sprintf("$ = %q", "set-by-"+r.Tag))
@@ -417,7 +421,11 @@ func RunModel(p *TProg, files []ModelFile, selectors []string, withEnd bool) (re
 	}()
 
 	// runBody executes a rule body; returns true if `next` fired.
-	runBody := func(r *TRule, root **JVal, elem *JVal, index int, fname string) bool {
+	// $file as the program sees it: published anew for every value; an ENDFILE
+	// rule may overwrite it (SetFile) for the rest of that value's processing
+	curFile := ""
+	runBody := func(r *TRule, root **JVal, elem *JVal, index int, _ string) bool {
+		fname := curFile
 		if r.Reroot != "" {
 			nv, ok := applySel(*root, r.Reroot)
 			if !ok {
@@ -457,6 +465,9 @@ func RunModel(p *TProg, files []ModelFile, selectors []string, withEnd bool) (re
 			emit(r.Tag + " " + fname + " " + show(*root))
 		case "ENDFILE":
 			emit(r.Tag + " " + fname)
+			if r.SetFile {
+				curFile = "clobbered"
+			}
 		case "PATTERN":
 			if isarr {
 				emit(r.Tag + " " + fname + " " + strconv.Itoa(index) + " " + show(elem))
@@ -512,12 +523,28 @@ func RunModel(p *TProg, files []ModelFile, selectors []string, withEnd bool) (re
 	begins, ends, bfs, efs, pats := kind("BEGIN"), kind("END"), kind("BEGINFILE"), kind("ENDFILE"), kind("PATTERN")
 
 	null := jNull
+	// a body-less special rule prints $: null for BEGIN/END, the selected root for BEGINFILE
+	bare := func(r *TRule, root *JVal) bool {
+		if !r.NoBody {
+			return false
+		}
+		s, ok := pretty(root, false)
+		if !ok {
+			fail("bare print of a multi-key object")
+		}
+		emit(s)
+		return true
+	}
 	for _, r := range begins {
+		if bare(r, null) {
+			continue
+		}
 		runBody(r, &null, null, 0, "")
 	}
 	for fi, f := range files {
 		for vi, v := range f.Values {
 			cur = [2]int{fi, vi}
+			curFile = f.Name
 			roots := []*JVal{v}
 			if len(selectors) > 0 {
 				roots = roots[:0]
@@ -533,6 +560,9 @@ func RunModel(p *TProg, files []ModelFile, selectors []string, withEnd bool) (re
 			for _, root := range roots {
 				root := root
 				for _, r := range bfs {
+					if bare(r, root) {
+						continue
+					}
 					runBody(r, &root, root, 0, f.Name)
 				}
 				runElem := func(elem *JVal, idx int) {
@@ -569,6 +599,9 @@ func RunModel(p *TProg, files []ModelFile, selectors []string, withEnd bool) (re
 	if withEnd {
 		cur = [2]int{len(files), 0}
 		for _, r := range ends {
+			if bare(r, null) {
+				continue
+			}
 			runBody(r, &null, null, 0, "")
 		}
 	}
